@@ -17,7 +17,9 @@ def make_pf_model(p):
     from EasyFEA import Models
 
     E = Models.Elastic
-    if p["material"] == "iso":
+    if p.get("dim", 2) == 3:
+        mat = E.Isotropic(3, E=p["E"], v=p["v"])
+    elif p["material"] == "iso":
         mat = E.Isotropic(2, E=p["E"], v=p["v"], planeStress=p["planeStress"], thickness=p["thickness"])
     elif p["material"] == "trans":
         mat = E.TransverselyIsotropic(2, El=p["E"], Et=p["E"] * 0.4, Gl=p["E"] * 0.2, vl=0.25, vt=0.3, axis_l=(1, 1, 0), axis_t=(-1, 1, 0), planeStress=p["planeStress"], thickness=p["thickness"])
@@ -52,6 +54,10 @@ class PfWorld(World):
             "solver": ["History", "HistoryDamage", "BoundConstrain"][int(rng.integers(3))],
         }
         mesh = ["tri3_a", "quad4_a", "tri3_b", "quad4_b", "tri6_a"][int(rng.integers(5 if tier == "thorough" else 4))]
+        if rng.random() < 0.12:
+            # 3D: the closed-form spectral decomposition has its own repeated-eigenvalue cases
+            p.update(dim=3, material="iso", planeStress=False)
+            mesh = ["hexa8_a", "tetra4_a", "prism6_a"][int(rng.integers(3))]
         return {"params": p, "mesh": mesh, "nops": int(rng.integers(8, 25)), "faults": bool(faults), "zero_history": bool(rng.random() < 0.12)}
 
     def __init__(self, cfg, ctx):
@@ -67,7 +73,19 @@ class PfWorld(World):
         with ctx.sut():
             self.model = make_pf_model(self.p)
             self.sim = simlib.make_sim("PhaseField", meshlib.build(raw), self.model)
+        # two boundary entities without a common node (a node entered twice holds the *sum* of the entries)
+        with ctx.sut():
+            m0 = self.sim.mesh
+            sets = [set(np.asarray(m0.Nodes_Tags(t)).tolist()) for t in self.tags]
+        pair = next(((i, j) for i in range(len(sets)) for j in range(i + 1, len(sets)) if sets[i] and sets[j] and not (sets[i] & sets[j])), None)
+        if pair is None:
+            self.close()
+            raise Discard("no two disjoint boundary entities on this mesh")
+        self.tagA, self.tagB = self.tags[pair[0]], self.tags[pair[1]]
         self.load = (0.0, 0.0)
+        self.rigid = (0.0, 0.0)  # translation added to both sides: strains at round-off level, not exactly zero
+        with ctx.sut():
+            self.un = list(self.sim.Get_unknowns(self.sim.ProblemTypes.elastic))
         self._apply_load()
         self.saved = []  # per saved iteration: dict(d, H)
         self.base = None  # baseline (d, H) for monotonicity
@@ -84,12 +102,14 @@ class PfWorld(World):
         with self.ctx.sut():
             sim.Bc_Init()
             m = sim.mesh
-            sim.add_dirichlet(m.Nodes_Tags(self.tags[0]), [0.0, 0.0], ["x", "y"])
-            sim.add_dirichlet(m.Nodes_Tags(self.tags[2]), [float(ux), float(uy)], ["x", "y"])
+            pad = [0.0] * (len(self.un) - 2)
+            tx, ty = self.rigid
+            sim.add_dirichlet(m.Nodes_Tags(self.tagA), [float(tx), float(ty)] + pad, self.un)
+            sim.add_dirichlet(m.Nodes_Tags(self.tagB), [float(ux + tx), float(uy + ty)] + pad, self.un)
             if self.p["regularization"] == "AT1" and self.p["solver"] != "BoundConstrain" and self.ctx.avoids("at1-singular-damage-system"):
                 # listed finding: without it the AT1 damage system is singular whenever psi+ vanishes everywhere.
                 # A damage-free clamp keeps the system regular so that the rest of the history can be explored.
-                sim.add_dirichlet(m.Nodes_Tags(self.tags[0]), [0.0], ["d"], problemType=sim.ProblemTypes.damage)
+                sim.add_dirichlet(m.Nodes_Tags(self.tagA), [0.0], ["d"], problemType=sim.ProblemTypes.damage)
 
     # ------------------------------------------------------------------
     def gen_op(self, rng, frng):
@@ -102,7 +122,7 @@ class PfWorld(World):
             if self.cfg.get("zero_history"):
                 op.update(mode="zero")
             else:
-                op.update(mode=["increase", "increase", "decrease", "reverse", "zero", "shear"][int(rng.integers(6))], amp=float(np.round(rng.uniform(0.005, 0.06), 4)))
+                op.update(mode=["increase", "increase", "decrease", "reverse", "zero", "shear", "rigid"][int(rng.integers(7))], amp=float(np.round(rng.uniform(0.005, 0.06), 4)))
         elif name == "solve":
             op.update(tolConv=[1.0, 0.5, 1e-1, 1e-2][int(rng.integers(4))], maxIter=int(rng.integers(2, 12)), convOption=int(rng.integers(0, 4)))
             if self.cfg.get("faults") and frng.random() < 0.3:
@@ -166,6 +186,12 @@ class PfWorld(World):
                 ux, uy = 0.0, 0.0
             elif m == "shear":
                 ux = ux + op["amp"]
+            elif m == "rigid":
+                self.rigid = (float(np.round(self.rigid[0] + op["amp"] * 1.7, 6)), float(np.round(self.rigid[1] - op["amp"] * 0.9, 6)))
+                # "no loading" is taken literally (every prescribed value zero): a translation is a non-zero prescribed
+                # displacement, although it strains nothing -- finiteness and irreversibility are still demanded
+                self.zero = False
+                ctx.probe("rigid_translation")
             self.load = (float(np.round(ux, 6)), float(np.round(uy, 6)))
             if self.load != (0.0, 0.0):
                 self.zero = False
@@ -287,4 +313,4 @@ class PfWorld(World):
         return [[st[k][0] for k in sorted(st)], self.load, len(self.saved)]
 
     def abstract_state(self):
-        return (self.p["split"], self.p["regularization"], self.p["solver"], self.p["material"], min(len(self.saved), 4), self.zero, np.sign(self.load[1]), self.solved)
+        return (self.p.get("dim", 2), self.p["split"], self.p["regularization"], self.p["solver"], self.p["material"], min(len(self.saved), 4), self.zero, np.sign(self.load[1]), self.solved)
